@@ -556,6 +556,10 @@ def handle (q : Q) (op : String) (a : Proto.Args) : Q × String :=
     if r == .panic then (q', "refused-empty") else (q', outStr q q' r evs (a.bool "nost"))
   | "pop" =>
     let (q', r, evs) := q.popUsed (a.nat "tok") (parseBufs (a.str "in")) (parseBufs (a.str "out")); (q', outStr q q' r evs (a.bool "nost"))
+  | "add_oom" =>
+    -- the heap cannot supply the indirect table: `new_box_zeroed_with_elems(..).unwrap()` panics before
+    -- anything is shared or written (a clean error return is printed alike)
+    (q, "refused-oom")
   | "add_many" =>
     -- `k` one-byte device-readable buffers (k ≥ 2^16): refused like every chain longer than the queue
     let (q', r, evs) := q.add (List.replicate (a.nat "k") { id := 0, len := 1 }) []
